@@ -617,6 +617,8 @@ def run(ctx):
         ctx.hit("corpus")
     sp, zoo = special_meshes(rng), meshes.zoo(rng, big=False)
     ms = sp + zoo
+    if ctx.thorough or ctx.escalate:
+        ms += special_meshes(rng) + meshes.zoo(rng, big=False)
     if not ctx.thorough and not ctx.escalate:
         rng.shuffle(zoo)
         ms = sp + zoo[:8]
@@ -682,6 +684,7 @@ def big_file(ctx):
         for elem in ELEM:
             for combo in MAIN:
                 queries_on(ctx, fm, elem, combo, 2, big=True)
+                ctx.hit("big-grid-file:outCSne30")
     finally:
         meshes.to_grid = orig
 
